@@ -73,6 +73,21 @@ def wl_history(ctx, rng, case):
                     ctx.check(bits_after == bits_before, f"a non-forced add of a key reported present changed a sub-filter at step {step}", key=key)
                 ctx.check(f.check(key), f"key absent right after its add at step {step}", key=key)
                 ctx.count("op.add")
+            elif r < 0.8 and counts[-1] < est and mk[1] >= 2:
+                # a REFUSED addition (hash list too short -> the insert raises): nothing was inserted, so the per-filter counts and the growth
+                # schedule are unchanged (only done while the newest filter has room: at the boundary the growth check precedes the failing insert)
+                key = rng.choice(keys)
+                case.op("refused add_alt", key)
+                try:
+                    f.add_alt((hf or _default())(key, mk[1])[: rng.randint(1, mk[1] - 1)], rng.random() < 0.5)
+                    raised = False
+                except Exception:
+                    raised = True
+                if raised:
+                    ctx.count("refused_additions")
+                    calls = f.elements_added if f.elements_added in (calls, calls + 1) else calls  # whether a refused call counts as an add call is not fixed
+                else:
+                    continue
             elif r < 0.86 and use_push:
                 case.op("push")
                 f.push()
@@ -234,5 +249,5 @@ PROP = Prop(
     ],
     assumptions=["an add is 'effective' iff force or the filter's own check() was false just before the call (decided by the harness before the call)",
                  "per-filter counts are read from the exported stream with an independent parser"],
-    required=["stream_parses", "cases_with_growth", "suppressed_duplicate_adds", "forced_duplicate_adds", "op.reload", "closed_form_checks", "geometry_sweep_cases"],
+    required=["stream_parses", "cases_with_growth", "suppressed_duplicate_adds", "forced_duplicate_adds", "op.reload", "closed_form_checks", "geometry_sweep_cases", "refused_additions"],
 )
